@@ -47,3 +47,8 @@ Lemma pow_okb_iff limit hash c : pow_okb limit hash c = true <-> pow_ok limit ha
 Proof.
   unfold pow_okb, pow_ok. rewrite !andb_true_iff, negb_true_iff, !Z.ltb_lt, !Z.leb_le. tauto.
 Qed.
+
+(* the proof-of-work limits of the four chains, in the order mainnet, testnet, signet, regtest
+   (Bitcoin Core chainparams.cpp: consensus.powLimit) *)
+Definition consensus_pow_limits : list Z :=
+  [2^224 - 1; 2^224 - 1; 0x377ae * 2^216; 2^255 - 1].
